@@ -422,6 +422,18 @@ def run(ck):
         else:
             v = gen_value(rng, d, pools, p_refused=8, p_errorv=8)
         add("V " + show(v), "V", v)
+    # DEEP values (response to seeded change C20d: a nesting-depth limit whose two sides count differently): spines of mixed aggregates and
+    # cons-lists (tagged union over a tuple: two levels per element) around and far beyond 128 levels
+    drng = ck.rng.fork("deep")
+    for i in range(14 if quick else 120):
+        if i % 2 == 0:
+            v = gen_deep(drng, drng.choice([40, 100, 126, 127, 128, 129, 130, 200, 400]), pools)
+        else:
+            n = drng.choice([30, 63, 64, 65, 100, 300])
+            v = ('g', 1, ('u',))
+            for j in range(n):
+                v = ('g', 0, ('t', [gen_value(drng, 1, pools), v]))
+        add("V " + show(v), "V", v)
     # each non-crossing variant alone and under each aggregate
     for leaf in [('l', (1, 1), [b"x"]), ('l', (3, 1), []), ('f', b"f", (2, 1)), ('x', b"ext"), ('m', ('u',)), ('m', ('n', 1)),
                  ('k', 1, b"Some", (1, 1)), ('e', (1, 1)), ('e', (2**32 - 1, 1))]:
